@@ -20,11 +20,14 @@ def base_options(rng, adaptive=True, steps=120, screening=False, save_every=None
         dt_max = float(rng.choice([0.05, 0.1]))
         solve_time = steps * dt_max * 0.6
     else:
-        dt_init = float(rng.choice([5e-3, 1e-2, 2e-2]))
+        # resolved at run time from the mesh's explicit stability bound (sim.resolve_auto_dt)
+        dt_init = 1e-3
         dt_max = 0.1
         solve_time = steps * dt_init
     o = dict(solve_time=float(solve_time), dt_init=dt_init, dt_max=dt_max, adaptive=bool(adaptive),
              save_every=int(save_every or rng.choice([7, 10, 25])), field_units="mT", current_units="uA", output="file")
+    if not adaptive:
+        o["auto_dt"] = {"steps": int(steps), "frac": float(rng.choice([0.15, 0.3, 0.45]))}
     if screening:
         o.update(include_screening=True, screening_tolerance=float(rng.choice([1e-2, 1e-3])), max_iterations_per_step=400)
     return o
@@ -100,6 +103,13 @@ MONITORS = {
 
 def run_sim_case(spec, prop, extra_listeners=(), post=None, **run_kwargs):
     """Runs one simulation spec with the monitors it names. Returns a result dict."""
+    if run_kwargs.get("device") is None:
+        device, why = zoo.try_build_device(spec["device"])
+        if device is None:
+            return {"violations": [], "counters": {"refused_mesh": 1}, "classes": ["refused"], "nontrivial": False}
+        run_kwargs["device"] = device
+    # fixed-step workloads get their dt from the mesh at run time; monitors must see the resolved drive
+    spec = sim.resolve_auto_dt(spec, run_kwargs["device"])
     mons = {name: MONITORS[name](spec) for name in ["sanitizer"] + list(spec.get("monitors", []))}
     listeners = list(mons.values()) + list(extra_listeners)
     rr = sim.run_sim(spec, listeners, **run_kwargs)
